@@ -684,6 +684,29 @@ pub fn run(cfg: &Cfg, rep: &mut Report) {
                 ctx.template_rel(&format!("{pre}{a} {op} {pre}{b}"), &format!("({pre}{a}) {op} ({pre}{b})"), &format!("prefix-both:{pre}:{op}"));
             }
         }
+        // ... with the value given by the harness's own arithmetic (a rewrite that treats flat and parenthesised text alike
+        // cannot hide behind the relational comparison)
+        for (a, b) in [(5i64, 7i64), (5, -6), (0, -1), (-1, 0), (7, 7), (-8, 7)] {
+            for (pre, f) in [("!", (|x: i64| !x) as fn(i64) -> i64), ("-", (|x: i64| x.wrapping_neg()) as fn(i64) -> i64)] {
+                if !matches!(*op, "&&" | "||") {
+                    let show = |e: Exp| match e {
+                        Exp::Int(v) => Some(v.to_string()),
+                        Exp::Bool(v) => Some(v.to_string()),
+                        _ => None,
+                    };
+                    if let Some(want) = show(int_oracle(op, f(a), b)) {
+                        for (ta, tb) in [(format!("hi({})", crate::ast::int_text(a)), format!("hi({})", crate::ast::int_text(b))), (crate::ast::int_text(a), crate::ast::int_text(b)), (format!("hi({})", crate::ast::int_text(a)), crate::ast::int_text(b))] {
+                            ctx.template(&format!("{pre}{ta} {op} {tb}"), &format!("({pre}{ta}) {op} {tb}"), &want, &format!("prefix-vs-binary-value:{pre}:{op}"));
+                        }
+                    }
+                    if let Some(want) = show(int_oracle(op, a, f(b))) {
+                        for (ta, tb) in [(format!("hi({})", crate::ast::int_text(a)), format!("hi({})", crate::ast::int_text(b))), (crate::ast::int_text(a), format!("hi({})", crate::ast::int_text(b)))] {
+                            ctx.template(&format!("{ta} {op} {pre}{tb}"), &format!("{ta} {op} ({pre}{tb})"), &want, &format!("binary-vs-prefix-value:{op}:{pre}"));
+                        }
+                    }
+                }
+            }
+        }
         for (c, v) in [("mut 5", "7"), ("mut 5", "hi(7)")] {
             ctx.template_rel(&format!("c := {c}; *c {op} {v}"), &format!("c := {c}; (*c) {op} {v}"), &format!("deref-vs-binary:{op}"));
             ctx.template_rel(&format!("c := {c}; {v} {op} *c"), &format!("c := {c}; {v} {op} (*c)"), &format!("binary-vs-deref:{op}"));
